@@ -406,3 +406,59 @@ def r_listbound(P, chk, rid="R-ANCHOR"):
                               "notes first used inside another note's body are pushed while the loop runs and never get a list entry" % (
                                   f.name, stk, ck))
     chk.floor(rid, n, 3, "note list loops")
+
+
+# ---------------------------------------------------------------------------
+# R-ANCHOR/toc-seed (C10): a table of contents derives a heading's unique label from the heading's ordinal
+
+def r_anchor_tocseed(P, chk):
+    """label_from_header numbers unlabelled headings with scratch->label_counter (the id is a function of that ordinal under
+    --unique / --random).  The body exports headings in document order, so heading #k gets ordinal k.  A function that walks
+    scratch->header_stack by index (tables of contents, EPUB navigation) may skip entries (level filter), so before it asks
+    label_from_header for entry #k it has to set the counter to k."""
+    rid = "R-ANCHOR"
+    n = 0
+    for f in P.all_funcs:
+        if not P.first_party(f):
+            continue
+        calls = [c for c in f.calls("label_from_header")]
+        if not calls:
+            continue
+        pos = f.cfg.positions()
+        for c in calls:
+            tok = strip(c["c"][2])
+            if tok is None or tok["k"] != "DeclRefExpr" or tok.get("dk") != "Var":
+                continue
+            defs = _reaching_defs(f, tok["n"], c)
+            idx = None
+            for d in defs:
+                rhs = d["c"][1] if d["k"] == "BinaryOperator" else (d["c"][0] if d.get("c") else None)
+                r = strip(rhs) if rhs is not None else None
+                if r is not None and r["k"] == "CallExpr" and r.get("callee") == "stack_peek_index" and key(r["c"][1]).endswith("header_stack"):
+                    idx = key(r["c"][2]).replace("(", "").replace(")", "")
+            if idx is None:
+                continue
+            n += 1
+            stores = [x for x in f.walk() if x["k"] == "BinaryOperator" and x["op"] == "=" and key(x["c"][0]).endswith("->label_counter")
+                      and key(x["c"][1]).replace("(", "").replace(")", "") == idx and x.get("i") in pos]
+            ok = False
+            for st in stores:
+                if not f.cfg.dominates(st["i"], c["i"]):
+                    continue
+                # the index is not advanced between the store and the call
+                changed = False
+                for y in f.walk():
+                    if y["k"] == "UnaryOperator" and y["op"] in ("post++", "pre++", "post--", "pre--") and \
+                            key(y["c"][0]).replace("(", "").replace(")", "") == idx and y.get("i") in pos:
+                        from .rules_mem import _reaches
+                        if _reaches(f, pos, st, y, []) and _reaches(f, pos, y, c, [st]):
+                            changed = True
+                if not changed:
+                    ok = True
+            chk.obligation(rid, "%s %s: label_from_header for header_stack[%s] runs with label_counter = %s" % (f.where(c), f.name, idx, idx), ok)
+            if not ok:
+                chk.violation(rid, "anchor:toc-seed:%s" % f.name, f.where(c),
+                              "%s asks label_from_header for entry %s of the header stack without setting scratch->label_counter to that "
+                              "index first: under --unique / --random the label printed here is numbered differently from the id the "
+                              "heading carries in the body (entries skipped by a level filter shift the numbering)" % (f.name, idx))
+    chk.floor(rid, n, 3, "label_from_header calls on header-stack entries taken by index")
